@@ -1053,6 +1053,22 @@ def build_catalog():
         return (lambda: T.cat((x, x), 0)), (lambda: T.cat((), 0)), None
 
 
+
+    @entry("getitem:operator_bare_index", True)
+    def _(T, P):
+        A = _tt(T, P["N"][:1], [1, 1], P["seed"], M=P["M"][:1])
+        bad = [0, slice(0, 1), -1][P["aux"] % 3]
+        return (lambda: A[0, 0]), (lambda: A[bad]), None
+
+    @entry("dot_axis:not_ascending", True)
+    def _(T, P):
+        # the modes of b are paired with the selected modes of a in ascending order; a permuted list with different mode
+        # sizes has no counterpart under that rule (and under "pair in the listed order" the sizes chosen here clash too)
+        x = _tt(T, [2, 3, 4], [1, 2, 2, 1], P["seed"])
+        b = _tt(T, [2, 4], [1, 2, 1], P["seed"] + 1)
+        return (lambda: T.dot(x, b, [0, 2])), (lambda: T.dot(x, b, [2, 0])), None
+
+
     return C
 
 
